@@ -4,6 +4,7 @@ import (
 	"embed"
 	"encoding/json"
 	"flag"
+	"go/types"
 	"fmt"
 	"io/fs"
 	"os"
@@ -207,6 +208,38 @@ func verifyFunction(P *Program, db *SpecDB, R *Resolver, fs *FuncSpec, fn *ssa.F
 	res.entryReach = reach
 	f.run(reach, args, frees, st)
 	preserveObligations(e, fn, fs)
+	// no-map-order: a syntactic obligation - no range over a map in the function or its closures
+	if nm := fs.NoMapOrder; nm != nil {
+		props := nm.Props
+		if len(props) == 0 {
+			props = fs.Props
+		}
+		var sites []string
+		var scan func(g *ssa.Function)
+		scan = func(g *ssa.Function) {
+			for _, b := range g.Blocks {
+				for _, ins := range b.Instrs {
+					if r, ok := ins.(*ssa.Range); ok {
+						if _, isMap := r.X.Type().Underlying().(*types.Map); isMap {
+							sites = append(sites, e.posStr(r.Pos()))
+						}
+					}
+				}
+			}
+			for _, a := range g.AnonFuncs {
+				scan(a)
+			}
+		}
+		scan(fn)
+		o := &Obligation{Name: fnDisplayName(fn) + "/no-map-order/" + nm.Label, Kind: "no-map-order", Fn: fnDisplayName(fn), Reach: tTrue, Props: props, Src: "no-map-order"}
+		if len(sites) == 0 {
+			o.Goal, o.Verdict, o.Solver = tTrue, "unsat", "syntactic"
+		} else {
+			o.Goal, o.Verdict = tFalse, "sat"
+			o.Model = "range over a map at " + strings.Join(sites, ", ") + ": the iteration order of Go maps differs from run to run and node to node"
+		}
+		e.obls = append(e.obls, o)
+	}
 	// a check-at clause whose program point does not exist (any more) is a failed obligation
 	for _, ca := range fs.CheckAts {
 		if f.checkAtHit[ca] == 0 {
